@@ -349,6 +349,13 @@ def exec_policy(ctx, case, ref=None):
     A = ref if ref is not None else _policy_run(pd, ds, seed, script, set())
   except Exception as e:  # pylint: disable=broad-except
     ctx.count(f'L2_runA_raised:{kind}:{type(e).__name__}')
+    if (kind == 'eagle' and isinstance(e, KeyError) and 'objective' in str(e)
+        and ds['cfg'].get('variant') == 'infeasible_force' and script['p_infeasible'] > 0):
+      # the policy dumps after every suggest: the never-stopped run dies as well
+      fire('L2:eagle:dump-raises-KeyError:infeasible-firefly-in-pool',
+           'policy layer, eagle: suggest raised KeyError(objective) out of dump() once an '
+           'infeasible firefly is in the pool')
+      ctx.case(_abstraction(case), True)
     return None
   if not R:
     ctx.case(_abstraction(case), False)
